@@ -921,6 +921,7 @@ TRUSTED_BASE = ['modelled (not verified) code: pybtex/richtext.py (all classes a
                 'str.upper/lower/isalpha are modelled on ASCII only, \\s as the 29 Python whitespace code points; '
                 'the regexes whitespace_re and delimiter_re are modelled by hand-written splitters (compared with the live objects through String.split on every run)']
 ASSUMPTIONS = ['characters whose case mapping changes length, and non-ASCII letters, are outside the compared domain (generators use ASCII, whitespace code points and a few non-letter symbols)']
-PARTIAL = ['not proved, left to the correspondence run and the oracle: that every constructed value is in the normal form assumed by flat_injective (checked by the oracle on every value), cut positions of split / string separators, add_period, abbreviate, isalpha, int index / add_period / abbreviate / split inside ops_compose; immutability of operands is checked by the oracle only',
+PARTIAL = ['not proved, left to the correspondence run and the oracle: cut positions of split / string separators (F17s), split and abbreviate as steps inside ops_compose, an int index outside the bounds inside ops_compose (F23)',
+           'immutability of operands is oracle-only: around every API call a deep snapshot (structure dump incl. external flags, tracing-back-end rendering, str, len) of each operand is compared before/after',
            'the _any theorems hold up to `erase`, which only reads the deprecated tag name emph as em (identity on every constructible text: erase_wf)',
            'refuted statements kept as theorems: index_out_of_range_raises_refuted (F23), contains/startswith/endswith_flat_refuted (F17), split_no_empty_piece_refuted (F17s)']
